@@ -131,6 +131,10 @@ func (n node) build(path string, o *buildOpts) any {
 		return CondAlias(stackage.Cond("kw"+path, stackage.Eq, "E"+path))
 	case "CCS":
 		return CondAlias(stackage.Cond("kw"+path, stackage.Ne, n.buildStack(path, o)))
+	case "C2S": // a Condition whose expression is a Condition that holds a Stack: not a way down (the expression is no Stack)
+		return stackage.Cond("outer"+path, stackage.Eq, stackage.Cond("inner"+path, stackage.Ne, n.buildStack(path, o)))
+	case "C2A":
+		return stackage.Cond("outer"+path, stackage.Eq, CondAlias(stackage.Cond("inner"+path, stackage.Ne, StackAlias(n.buildStack(path, o)))))
 	}
 	panic("node kind " + n.T)
 }
